@@ -122,12 +122,30 @@ def project(df):
 
 def cause_of(how):
     """Branch class of a run of the algorithm model (its branch log)."""
-    steps = [tuple(h) for h in how]
+    steps = [tuple(h[-2:]) for h in how]                       # (dispatch,) suffix outcome, prefix outcome
     if ("suffix-tailcut", "both-headcut") in steps:
         return "tailcut+headcut_in_one_join"
     if any("suffix-tailcut" in st for st in steps):
         return "tailcut"
     return "no_tailcut"
+
+
+CUTS = {"suffix-tailcut", "prefix-headcut", "both-headcut"}
+# dispatch branch families of trace_chains' connection step that must occur among the replayed point sets
+REQUIRED_FAMILIES = [(d, c) for d in ("suffix-only", "prefix-only", "single-same-target", "multi-same-target",
+                                      "single-same-target+orphan", "multi-same-target+orphan", "same-chain", "two-sided")
+                     for c in ("nocut",)] + \
+                    [("suffix-only", "cut"), ("prefix-only", "cut"), ("single-same-target", "cut"), ("same-chain", "cut"),
+                     ("two-sided", "cut")]
+
+
+def families(how):
+    """The (dispatch branch, with / without a cut) families a run of the algorithm model goes through."""
+    out = set()
+    for st in how:
+        if len(st) == 3 and st[0] != "no-neighbour":
+            out.add((st[0], "cut" if CUTS & set(st[1:]) else "nocut"))
+    return out
 
 
 def canon(tab):
@@ -397,33 +415,40 @@ def run(ctx):
     def want(x):
         return not only or x in only
 
-    bad, sample, controls = [], [], []
+    bad, sample, controls, cover = [], [], [], []
     if want("l1"):
         # reference builder: every reachable table is a valid trace (all link sets / orders of the scope)
         ctx.tlc("MC_Chains", cfg_chains("RefSpec", 3, 4, "all", ["INVARIANT C19_RefValid"]), name="ref_3",
                 workers=workers)
         ctx.exhaustive["L1_reference_builder_3_particles_4_links"] = True
         # algorithm model (current design), exhaustive small scopes: all link sets and distance orders
-        scopes = ctx.pick([(3, 6), (4, 4)], [(3, 6), (4, 6), (5, 4)])
+        scopes = ctx.pick([(4, 4)], [(3, 6), (4, 4), (4, 6), (5, 4)])
         for n, k in scopes:
-            res = ctx.tlc("MC_Chains", cfg_chains("BuildSpec", n, k, "none", ["CONSTRAINT EmitAlgoBad"]),
+            # small scopes also emit the runs through the rarer dispatch branches (branch-coverage replays)
+            emit = "EmitAlgoCover" if (n, k) in ((3, 6), (4, 4)) else "EmitAlgoBad"
+            res = ctx.tlc("MC_Chains", cfg_chains("BuildSpec", n, k, "none", ["CONSTRAINT " + emit]),
                           name="algo_%d_%d" % (n, k), workers=workers)
-            bad += res.tagged.get("ALGO", [])
+            recs = dedupe(res.tagged.get("ALGO", []))
+            bad += [r for r in recs if r["clause"] != "none"]
+            cover += [r for r in recs if r["clause"] == "none"]
             ctx.exhaustive["L1_algorithm_%d_particles_%d_links" % (n, k)] = True
         # the neighbourhoods of the two six-particle configurations on which the earlier designs fail (found by TLC's
         # simulation of this model): every link subset / distance order over their candidate pairs
-        for fam, k in (("skeleton", ctx.pick(5, 7)), ("skeleton2", 6)):
-            res = ctx.tlc("MC_Chains", cfg_chains("AlgoSpec", 6, k, fam, ["CONSTRAINT EmitAlgo"]),
+        for fam, k in (("skeleton", ctx.pick(5, 7)), ("skeleton2", 6), ("skeleton3", 6)):
+            res = ctx.tlc("MC_Chains", cfg_chains("AlgoSpec", 5 if fam == "skeleton3" else 6, k, fam, ["CONSTRAINT EmitAlgo"]),
                           name="algo_" + fam, workers=1)
             recs = dedupe(res.tagged.get("ALGO", []))
             bad += [r for r in recs if r["clause"] != "none"]
             sample += [r for r in recs if r["clause"] == "none" and r["links"]]
+            cover += [r for r in recs if r["clause"] == "none" and r["links"]]
             ctx.exhaustive["L1_algorithm_" + fam] = True
         # negative controls: the earlier designs must still be found violating (the clauses are not vacuous); their
         # counter-examples are the sharpest inputs for the code, so they are replayed too (L2)
-        ctrl = [("NoRepair", "skeleton", 5, "C19_ConsecutiveLinked"), ("OnlyTailcutOrder", "skeleton2", 6, "C19_OrdersConsecutive")]
-        if not ctx.quick:
-            ctrl.append(("OnlyFreshHeadId", "skeleton", 7, "C19_ConsecutiveLinked"))
+        if ctx.quick:      # the two six-particle configurations themselves
+            ctrl = [("NoRepair", "appendixC6", 5, "C19_ConsecutiveLinked"), ("OnlyTailcutOrder", "doublejoin6", 6, "C19_OrdersConsecutive")]
+        else:              # ... and their whole neighbourhoods
+            ctrl = [("NoRepair", "skeleton", 5, "C19_ConsecutiveLinked"), ("OnlyTailcutOrder", "skeleton2", 6, "C19_OrdersConsecutive"),
+                    ("OnlyFreshHeadId", "skeleton", 7, "C19_ConsecutiveLinked")]
         for variant, fam, k, clause in ctrl:
             res = ctx.tlc("MC_Chains", cfg_chains("AlgoSpec", 6, k, fam, ["CONSTRAINT EmitAlgoBad"], variant=variant),
                           name="control_%s_%s" % (variant, fam), workers=1)
@@ -450,9 +475,21 @@ def run(ctx):
         ctx.extra["model_counterexample_classes"] = sorted({"%s/%s" % (r["clause"], cause_of(r["how"])) for r in bad})
     if want("l2") and (bad or sample or controls):
         rng = random.Random(ctx.seed * 7919 + 19)
-        chosen = sorted(sample, key=lambda r: core.stable_hash([ctx.seed, r["links"]]))[:ctx.pick(40, 500)]
+        chosen = sorted(sample, key=lambda r: core.stable_hash([ctx.seed, r["links"]]))[:ctx.pick(12, 500)]
         hard = controls[:ctx.pick(25, 200)]
-        todo = bad[:ctx.pick(25, 150)] + chosen
+        # branch coverage: seed-selected representatives of every dispatch family TLC found reachable
+        per_family = {}
+        for r in sorted(cover, key=lambda r: core.stable_hash([ctx.seed, "cover", r["links"]])):
+            for fam in families(r["how"]):
+                lst = per_family.setdefault(fam, [])
+                if len(lst) < ctx.pick(4, 40):
+                    lst.append(r)
+        reps = dedupe([r for lst in per_family.values() for r in lst])
+        missing = [f for f in REQUIRED_FAMILIES if f not in per_family]
+        if want("l1") and missing:
+            raise core.MachineryError("the algorithm model never went through the dispatch families %s in the explored "
+                                      "scopes" % missing)
+        todo = bad[:ctx.pick(25, 150)] + chosen + reps
         cases, recs = [], []
         for i, r in enumerate(todo + hard):
             c = instance_case(ctx, r, rng, 100000 + i)
@@ -468,6 +505,15 @@ def run(ctx):
             nmodel += 1
             real = canon([(r[0], r[2], r[3]) for r in rows])
             agree += int(real == canon([tuple(x[:3]) for x in by_id[c["id"]]["table"]]))
+        realised = set()
+        for c in kept:
+            if by_id[c["id"]] is not None:
+                realised |= families(by_id[c["id"]]["how"])
+        lost = [f for f in per_family if f not in realised]
+        ctx.extra["dispatch_families_replayed"] = sorted("%s/%s" % f for f in realised)
+        if lost:
+            raise core.MachineryError("dispatch families %s were found by TLC but none of their instances could be realised "
+                                      "as a point set and replayed" % lost)
         ctx.extra["model_instances_replayed"] = len(kept)
         ctx.extra["model_agreement"] = "%d of %d real tables equal the current model's table" % (agree, nmodel)
     if want("reg"):
@@ -478,7 +524,7 @@ def run(ctx):
                 reg.append(json.load(fh)["case"])
         run_cases(ctx, reg)
     if want("l3"):
-        total = ctx.pick(80, 1500)
+        total = ctx.pick(70, 1500)
         batch = 250
         done = 0
         while done < total:
